@@ -4,7 +4,8 @@
      get h4 | put h3 | add h3 <hexkey> h4 | del h3 <hexkey>
      addx h3 <hexkey> h4 <flags>   json_object_object_add_ex; flags: 1 = KEY_IS_NEW, 2 = CONSTANT_KEY
      aadd h5 h4 | aput h5 2 h4 | ains h5 1 h4 | adel h5 0 2
-     setud h4 <tag> | setser h4 <tag> | clrud h4
+     reg h4 <regno> <u> <d> <s>   set_userdata (s=0) / set_serializer with NULL (s=1) or custom (s=2)
+                                  function; u: userdata non-NULL, d: delete callback given
      copy h6=h3 (shallow-copy function that installs callbacks) | copyd h6=h3 (NULL)
      ptrset h3 <hexpath|-> h4 | use h4
      padd h3 <hexpath> h4 | prepl h3 <hexpath> h4 | prem h3 <hexpath> | pcopy h3 <hexfrom> <hexpath>
@@ -56,8 +57,7 @@ let parse_op (s : string) : op * z option =
   | ["aput"; p; i; v] -> (OArrPut (hid1 p, z_of_string i, hid v), None)
   | ["ains"; p; i; v] -> (OArrIns (hid1 p, z_of_string i, hid v), None)
   | ["adel"; p; i; c] -> (OArrDel (hid1 p, z_of_string i, z_of_string c), None)
-  | ["setud"; a; t] | ["setser"; a; t] -> (OSetUd (hid1 a, Some (z_of_string t)), None)
-  | ["clrud"; a] -> (OSetUd (hid1 a, None), None)
+  | ["reg"; a; t; u; d; _] -> (OSetUd (hid1 a, u = "1", d = "1"), Some (z_of_string t))
   | ["ptrset"; r; p; v] -> (OPtrSet (hid1 r, path_of_hex p, hid v), None)
   | ["use"; a] -> (OUse (hid1 a), None)
   | _ -> failwith ("heap op: " ^ s)
@@ -79,7 +79,7 @@ let rec dump h depth (v : z option) =
     | Some n ->
       let idt = match n.cb with Some t -> string_of_z i ^ "." ^ string_of_z t | None -> "?" in
       let k = match n.nkind with KScalar -> "s" | KArray -> "a" | KObject -> "o" in
-      let head = Printf.sprintf "%s%s#%s" k idt (string_of_z n.rc) in
+      let head = Printf.sprintf "%s%s%s#%s" k idt (if n.ud then "u" else "-") (string_of_z n.rc) in
       (match n.nkind with
        | KScalar -> head
        | KArray -> head ^ "[" ^ String.concat "," (List.map (fun (_, c) -> dump h (depth + 1) c) n.children) ^ "]"
